@@ -39,6 +39,30 @@ extern "C" int LLVMFuzzerTestOneInput(const uint8_t * data, size_t size)
     g.initialize();
   } catch (std::exception &) { labels()[cdf ? "cdf_rejected" : "pdf_rejected"]++; return 0; }
   labels()[cdf ? "cdf_loaded" : "pdf_loaded"]++;
+  // what was loaded must satisfy the loader's own predicate (finite, non-negative probabilities, a positive finite maximum, a finite ordered energy
+  // range) - observed through the public print() / plot_interpolated_pdf(): a table holding 'nan' or 'inf' is a garbage load
+  {
+    std::ostringstream po; g.print(po, "", "");
+    std::istringstream pi(po.str()); std::string l;
+    while (std::getline(pi, l)) {
+      size_t eq = l.find(" = "); if (eq == std::string::npos) continue;
+      bool is_pmax = l.find("Prob(max)") != std::string::npos, is_e = l.find("(min)") != std::string::npos || l.find("(max) =") != std::string::npos || l.find("esum(max)") != std::string::npos;
+      if (!is_pmax && !is_e) continue;
+      double v = strtod(l.c_str() + eq + 3, nullptr);
+      if (!std::isfinite(v)) violation("dbd_gA accepted a data set with a non-finite table parameter (print() reports it)");
+      if (is_pmax && !(v > 0)) violation("dbd_gA accepted a p.d.f. table whose maximum is not positive");
+    }
+    if (!cdf) {
+      std::ostringstream qo;
+      try { g.plot_interpolated_pdf(qo, 7); } catch (std::exception &) { qo.str(""); }
+      std::istringstream qi(qo.str()); double x, y, pr;
+      while (qi >> x >> y) {
+        std::string w; if (!(qi >> w)) break; pr = strtod(w.c_str(), nullptr);
+        if (!std::isfinite(pr) || w.find("nan") != std::string::npos || w.find("inf") != std::string::npos) violation("dbd_gA accepted a p.d.f. table that interpolates to a non-finite density");
+        if (pr < -1e-9) violation("dbd_gA accepted a p.d.f. table that interpolates to a negative density");
+      }
+    }
+  }
   Bytes b(data + flen, tail); ByteRandom rnd(b, 30000);
   try {
     for (int k = 0; k < 32; k++) {
